@@ -1,15 +1,15 @@
-\* MC_MxIOSpec_quick.cfg2
+\* MC_MxIOSpec_quick1.cfg2
 CONSTANTS
-  Models = {"M1", "M2"}
+  Models = {"M1"}
   BaseInit = {"M1"}
   Names = {"x", "y"}
   CsvLocs = {"p.csv", "q.csv"}
-  ModLocs = {}
+  ModLocs = {"mo.py"}
   PVals = {1, 2}
-  MVals = {}
-  WithDelSpace = FALSE
+  MVals = {3}
+  WithDelSpace = TRUE
   ExploreTainted = FALSE
-  MaxOps = 3
+  MaxOps = 4
   Dump = TRUE
 VIEW View
 INIT Init
